@@ -23,6 +23,7 @@ import (
 
 	"verifmc/core"
 	"verifmc/node"
+	"verifmc/vclock"
 
 	"github.com/LemoFoundationLtd/lemochain-core/chain/params"
 	"github.com/LemoFoundationLtd/lemochain-core/chain/types"
@@ -251,23 +252,27 @@ type candidate struct {
 	parent string // block name
 	miner  string // key name
 	txs    func(t *tree) types.Transactions
+	// real: the candidate is mined by a real node (the full engine with the transactions in its pool
+	// and its clock at the slot), not by the block factory. Used where the factory's stand-in for a part
+	// of the engine (node.canLoader mirrors DPoVP.LoadTopCandidates) would decide what "honest" means.
+	real bool
 }
 
 func oneTx(t *tree) types.Transactions  { return types.Transactions{t.txNew} }
 func voteTx(t *tree) types.Transactions { return types.Transactions{t.txVote} }
 
 var candidates = map[string][]candidate{
-	"fresh":        {{"empty-on-head", "f", "d1", nil}, {"tx-on-head", "f", "d1", oneTx}},
-	"chain3":       {{"tx-on-head", "a2", "d0", oneTx}, {"empty-on-mid", "a1", "d0", nil}},
-	"forks":        {{"tx-on-short-fork", "b1", "d0", oneTx}, {"empty-on-head", "a2", "d0", nil}},
-	"after-stable": {{"tx-on-head", "a2", "d0", oneTx}},
-	"pruned-fork":  {{"tx-on-pruned-fork", "b1", "d0", oneTx}, {"tx-on-stable-head", "a1", "d2", oneTx}},
-	"pre-snapshot": {{"snapshot-empty", "s4", "d1", nil}, {"snapshot-tx", "s4", "d1", oneTx},
-		{"snapshot-with-vote-for-rank2", "s4", "d1", voteTx}},
-	"post-snapshot":                    {{"after-snapshot-tx", "s5", "d2", oneTx}},
-	"interim-end(snapshot stable)":     {{"first-of-new-term", "s7", "d1", oneTx}},
-	"interim-end(snapshot not stable)": {{"first-of-new-term(term not loaded)", "s7", "d1", oneTx}},
-	"new-term":                         {{"second-of-new-term", "s8", "cs0", oneTx}},
+	"fresh":        {{"empty-on-head", "f", "d1", nil, false}, {"tx-on-head", "f", "d1", oneTx, false}},
+	"chain3":       {{"tx-on-head", "a2", "d0", oneTx, false}, {"empty-on-mid", "a1", "d0", nil, false}},
+	"forks":        {{"tx-on-short-fork", "b1", "d0", oneTx, false}, {"empty-on-head", "a2", "d0", nil, false}},
+	"after-stable": {{"tx-on-head", "a2", "d0", oneTx, false}},
+	"pruned-fork":  {{"tx-on-pruned-fork", "b1", "d0", oneTx, false}, {"tx-on-stable-head", "a1", "d2", oneTx, false}},
+	"pre-snapshot": {{"snapshot-empty", "s4", "d1", nil, false}, {"snapshot-tx", "s4", "d1", oneTx, false},
+		{"snapshot-with-vote-for-rank2", "s4", "d1", voteTx, true}},
+	"post-snapshot":                    {{"after-snapshot-tx", "s5", "d2", oneTx, false}},
+	"interim-end(snapshot stable)":     {{"first-of-new-term", "s7", "d1", oneTx, false}},
+	"interim-end(snapshot not stable)": {{"first-of-new-term(term not loaded)", "s7", "d1", oneTx, false}},
+	"new-term":                         {{"second-of-new-term", "s8", "cs0", oneTx, false}},
 }
 
 func isSnapshotHeight(h uint32) bool { return h%termDur == 0 }
@@ -291,10 +296,51 @@ func baseBlock(st state, ci int) *types.Block {
 	if tm < t0 {
 		tm += (t0 - tm + nDep*slotSec - 1) / (nDep * slotSec) * (nDep * slotSec)
 	}
+	if cand.real {
+		tr.bases[k] = mineReal(cand, parent, tm, txs)
+		return tr.bases[k]
+	}
 	base, inv, err := tr.f.Make(node.BlockSpec{Parent: parent, Miner: key(cand.miner), Time: tm, Txs: txs, Extra: "cand", NoSave: true})
 	if err != nil || len(inv) > 0 {
 		panic(fmt.Sprintf("harness: candidate %s: %v, %d transactions not packaged", cand.name, err, len(inv)))
 	}
 	tr.bases[k] = base
 	return base
+}
+
+// mineReal lets a real node whose key is the miner's mine the candidate: it receives the ancestors,
+// gets the transactions into its pool, its clock is set to the slot, and its engine mines.
+func mineReal(cand candidate, parent *types.Block, tm uint32, txs types.Transactions) *types.Block {
+	var path []*types.Block
+	for x := parent; x != nil && x.Height() > 0; x = tr.parentOf(x) {
+		path = append([]*types.Block{x}, path...)
+	}
+	vclock.SetUnix(lateClock)
+	m := node.NewNode(core.ScratchDir("c02m"), nDep, key(cand.miner))
+	node.Drain(m)
+	for _, b := range path {
+		m.Use()
+		if err := m.BC.InsertBlock(node.Wire(b)); err != nil {
+			panic("harness: mining node refused " + tr.name[b.Hash()] + ": " + err.Error())
+		}
+		node.Drain(m)
+	}
+	for _, tx := range txs {
+		if err := m.Pool.AddTx(tx.Clone()); err != nil {
+			panic("harness: mining node's pool refused a transaction: " + err.Error())
+		}
+	}
+	vclock.SetUnix(int64(tm))
+	m.Use()
+	m.BC.MineBlock(node.HugeTimeout)
+	node.Drain(m)
+	vclock.SetUnix(lateClock)
+	b := m.BC.CurrentBlock()
+	if b.ParentHash() != parent.Hash() || len(b.Txs) != len(txs) || b.Time() != tm {
+		panic(fmt.Sprintf("harness: the mining node did not mine candidate %s (head %d, %d txs)", cand.name, b.Height(), len(b.Txs)))
+	}
+	out := node.Wire(b)
+	out.Confirms = nil
+	m.Destroy()
+	return out
 }
